@@ -59,13 +59,16 @@ class StubChain:
         return np.concatenate([np.concatenate(self.points), np.array(self.probs, dtype=dt)])
 
 
-def _system(h, N, chooser, max_cp=8, tag=""):
+def _system(h, N, chooser, max_cp=8, tag="", general_ladder=True):
     import inference.mcmc.parallel as par
     sc = sched.Scheduler(chooser, max_cp)
     Pipe, Process, Event = sched.install(sc)
     h.patch(par, both=True, Pipe=Pipe, Process=Process, Event=Event)
     L = h.ufunc("L", 1)
-    betas = [1.0] + [h.real(f"beta{k}", lo=0, hi=1, lo_strict=True) for k in range(1, N)]
+    # any ladder: inverse temperatures in (0, 1] in any order (the list need not be sorted and need not start with T = 1)
+    betas = [h.real(f"beta{k}", lo=0, hi=1, lo_strict=True) for k in range(N)]
+    if not general_ladder:       # units whose subject does not depend on the ladder: T = 1 first (far fewer orderings to fork over)
+        betas[0] = 1.0
     # (names are shared between the two systems built in one path so that they hold identical symbolic data)
     h._names = {k: v for k, v in h._names.items() if not k.startswith("chain") and not k.startswith("beta")}
     chains = [StubChain(h, k, betas[k], L) for k in range(N)]
@@ -160,7 +163,7 @@ def result_is_independent_of_the_schedule(h, N, n, cp):
     h.covers(par.ParallelTempering.take_steps, par.ParallelTempering.return_chains, par.ParallelTempering.shutdown, par.tempering_process)
 
     def scenario(chooser, tag):
-        par_, sc, pt, chains, betas, L = _system(h, N, chooser, cp, tag)
+        par_, sc, pt, chains, betas, L = _system(h, N, chooser, cp, tag, general_ladder=False)
         try:
             pt.rng = stubs.SymRng(h, "swap" + tag)
             h.patch(par, both=True, choice=lambda seq: seq[0])
@@ -185,6 +188,26 @@ def result_is_independent_of_the_schedule(h, N, n, cp):
     h.same("all workers terminated after shutdown", donea, [True] * N)
     for k in range(N):
         h.eq(f"chain {k}: identical under the forked and the canonical schedule", sa[k], sb[k])
+
+
+@unit("C08", quick=[dict(N=2, cp=4), dict(N=3, cp=5)], thorough=[dict(N=4, cp=5)], max_paths=20000, cost=5)
+def chains_are_handed_back_in_ladder_order(h, N, cp):
+    """return_chains under every order in which the workers deliver their chains (the interleaving choice points are spent
+    on the hand-back itself), for any ladder including repeated temperatures: slot k of the returned list holds the chain of
+    worker k, complete, and every worker still terminates on shutdown"""
+    import inference.mcmc.parallel as par
+    h.covers(par.ParallelTempering.return_chains, par.ParallelTempering.shutdown, par.tempering_process)
+    par_, sc, pt, chains, betas, L = _system(h, N, lambda k, labels: h.choice_int("schedule", 0, k - 1), cp)
+    try:
+        out = pt.return_chains()
+        h.same("one chain per worker", len(out), N)
+        h.same("slot k holds worker k's chain", [getattr(c, "k", None) for c in out], list(range(N)))
+        for k, c in enumerate(out[:N]):
+            h.eq(f"chain {k} handed back complete", c.state(), chains[k].state())
+        pt.shutdown()
+        h.same("all workers terminated after shutdown", [t.finished for t in sc.tasks], [True] * N)
+    finally:
+        sc.abort_all()
 
 
 @unit("C08", quick=[dict(lo=1, hi=16), dict(lo=17, hi=40), dict(lo=41, hi=64)], cost=3)
